@@ -845,7 +845,9 @@ def auto_sig(c, obl, what, lines):
         return 'packed-simplifies-union'
     if 'generated array does not have the declared length' in text and '/lazy' in what:
         return 'buffers-lazy-declared-length'
-    if c.op in ('buffers', 'pickle') and 'buffer is too short for NumpyArray' in text and tree_feature(tree, offsets_beyond):
+    if c.op in ('buffers', 'pickle') and tree_feature(tree, offsets_beyond) and (
+            'buffer is too short for NumpyArray' in text or 'EmptyArray found in node with non-zero expected length' in text
+            or re.search(r'too short for \w+: expected', text)):
         return 'buffers-empty-lists-offsets-beyond-content'
     if c.op in ('buffers', 'pickle'):
         if 'must not be shorter than' in text or 'is not valid (ak.is_valid)' in text or 'length mismatch' in text:
@@ -869,6 +871,9 @@ def auto_sig(c, obl, what, lines):
         if 'differs from to_list' in what and tree_feature(tree, lambda t: t[0] == 'rec' and any(
                 tlen(x) > int(t[1]) for x in t[3:])):
             return 'to_numpy-record-uses-field-length'
+    if 'does not conform to expected form' in text and 'BitMaskedArray' in text and 'ByteMaskedArray' in text and \
+            tree_feature(tree, lambda t: t[0] == 'virt'):
+        return 'virtual-lazy-slice-bitmasked-form-mismatch'        # C18's finding, met here when a partition slices a VirtualArray
     if 'VirtualForm cannot determine its type without an expected Form' in text:
         return 'virtual-without-form'
     if c.op == 'arrow':
@@ -882,6 +887,9 @@ def auto_sig(c, obl, what, lines):
         if 'is out of bounds for axis 0 with size' in text and 'toarrow' in what and \
                 tree_feature(tree, lambda t: t[0] == 'un') and tree_feature(tree, lambda t: t[0] in ('ixo', 'bym', 'bim')):
             return 'arrow-validity-bitmap-shorter-than-content'
+        if 'mask must not be shorter than its ceil' in text and tree_feature(
+                tree, lambda t: t[0] == 'ixo' and tlen(t[3]) == 0 and all(int(i) < 0 for i in t[2])):
+            return 'arrow-empty-option-content-cast'
         if 'Unsupported cast to' in text and 'from null' in text:
             return 'arrow-empty-option-content-cast'
         if 'min() iterable argument is empty' in text:
@@ -937,7 +945,7 @@ def check_stage(V, c, skips, stage, it, obl, must=True):
         return None
     if must:
         V.add('viol', obl, '%s/%s raised %s: %s' % (c.op, stage, exc, short(msg.split('\n')[0], 300)), c,
-              [case_line(c), '# stage %s: %s' % (stage, short(msg.replace('\n', ' | '), 600))])
+              [case_line(c), '# stage %s: %s' % (stage, short(msg.replace('\n', ' | '), 4000))])
     return None
 
 
